@@ -582,6 +582,12 @@ func report(w *World, obs []*Obligation, reports []*funcReport, toolErrors, trus
 				fmt.Printf("KNOWN-FINDING: property=%s %s\n", rc.prop, strings.TrimSpace(strings.TrimPrefix(k, "property="+rc.prop)))
 				knownHit[ob.Name] = true
 			}
+			// a recorded finding is not part of the proof claim: it is listed separately
+			if ob.Bounded {
+				bounded--
+			} else {
+				total--
+			}
 			continue
 		}
 		if reported[ob.Name] {
